@@ -366,7 +366,7 @@ def validModes (cfg : LinCfg) (x y : List Rat) (tol : Tolerance) : List Mode :=
 
 /-- does the relation of mode `m` hold between the samples, within tolerance? -/
 def holds (m : Mode) (x y : List Rat) (tol : Tolerance) : Bool :=
-  nearlyZero (err2 m x y) (sumL (x.map (fun a => a * a))) tol
+  nearlyZero (err2 m x y) (sumL (y.map (fun b => b * b))) tol
 
 /-- **The awarded credit is the largest configured credit among the relations that hold** (and 0 if none holds) -/
 theorem linear_best_mode {cfg : LinCfg} {x y : List Rat} {tol : Tolerance} {r : Rat × String}
